@@ -223,12 +223,22 @@ pub fn draw_plan(ops: &[Op], class: FaultClass, r: &mut Rng) -> Plan {
             FaultClass::None => vec![],
         };
         let weight = match op.kind.as_str() {
-            "read" if op.n == "1" => 1, // byte-wise JSON reads: hundreds per invocation
+            // byte-wise JSON reads come by the hundred per invocation: one in fifty is a candidate
+            "read" if op.n == "1" => {
+                if op.idx % 50 == 0 {
+                    16
+                } else {
+                    0
+                }
+            }
             "read" if op.ret.parse::<i64>().unwrap_or(0) > 0 => 16,
             "write" | "openw" | "mkdir" => 16,
             "open" | "opendir" => 8,
             _ => 2,
         };
+        if weight == 0 {
+            continue;
+        }
         for k in kinds {
             cands.push((op.idx, k, weight));
         }
